@@ -20,7 +20,7 @@ def make_api(ctx, count):
         ops = [("AI",)]
         keys = [(G.rand_mac(rng), rng.choice([0, 1, 7])) for _ in range(rng.randint(1, 20))]
         style = rng.choice(["busy", "sparse", "complete"])
-        for _ in range(rng.randint(200, 700) if ctx.quick else rng.randint(200, 2000)):
+        for _ in range(rng.randint(200, 700) if ctx.quick else rng.randint(200, 1000)):
             r = rng.random()
             k = rng.choice(keys)
             if r < 0.22:
@@ -221,7 +221,7 @@ def run(ctx):
                        "'eventually stops' is judged as safety: no callback while no incomplete session exists",
                        "daemon flow is a transcription of darwin-main.c:289-404 (harness/vh_flow.c)"]
     binary = H.build(ctx.work, "asan")
-    scns = make_api(ctx, ctx.n(1200, 40000)) + make_flow(ctx, ctx.n(600, 20000))
+    scns = make_api(ctx, ctx.n(1200, 12000)) + make_flow(ctx, ctx.n(600, 6000))
     run_monitored(ctx, binary, scns, monitor, tag="hello")
     c = rep.counters
     rep.need("callbacks", c.get("callbacks", 0), 1000)
